@@ -185,7 +185,10 @@ class Outcome:
 def guarded(fn):
     try:
         return Outcome(vals=fn())
-    except (Unsupported, NeedConcrete, OutOfBounds):
+    except OutOfBounds as e:
+        # numba does not bounds-check: the real code reads or writes outside the buffer here; the replay decides
+        return Outcome(exc=f"OutOfBounds: {str(e)[:140]}")
+    except (Unsupported, NeedConcrete):
         raise
     except PathRaise as e:
         return Outcome(exc=f"raise {e.text}")
@@ -587,6 +590,319 @@ def run_arrays(check, pool, Task, pid, quantities, kinds=None, derivs=None, dtyp
                 r = dict(r, detail=f"symbolic finding did not reproduce on the real code: {[f[:3] for f, o in zip(fnd, outcome) if o == 'spurious'][:3]}")
             else:
                 st = 'known-finding'
+            check.record(t.name, dict(r, status=st), 'wrapper', m)
+        else:
+            check.record(t.name, r, 'wrapper', m)
+
+
+# ------------------------------------------------------------------------------------------------ C02: PointArray.intersects(shape)
+SHAPES = {
+    'point': ['P'],
+    'multipoint': [3, 0],
+    'line': [3, 1],
+    'ring': [4],
+    'multiline': [[2, 3], [2]],
+    'polygon': [[3, 3], [4]],
+    'multipolygon': [[[3], [3, 3]], [[4]]],
+}
+
+
+def point_intersects_task(skind, sspec, pderiv='identity', sliced_shape=False, timeout=120, seed=0):
+    """PointArray.intersects(shape) / intersects(shape, inds) / Point.intersects(shape) against the canonical
+    kernel value per point; shape = scalar element of a (possibly sliced) tagged array of kind `skind`"""
+    t0 = time.time()
+    values.set_mul_mode('uf')
+    ts = T.TagSpace(sort='int')
+    psrc, _ = T.build_array(ts, 'point', BASE['point'])
+    parr = DERIVS[pderiv][0](psrc)
+    filler = BASE[skind][0]
+    sarr, _ = T.build_array(ts, skind, [filler, sspec] if sliced_shape else [sspec])
+    if sliced_shape:
+        sarr = sarr[1:]
+    shape = sarr[0]
+    ssym = T.symbolic_element(ts, skind, T.element_tags(skind, shape))
+    it = ts.install(Interp())
+    n = len(parr)
+    psyms = [T.symbolic_element(ts, 'point', T.element_tags('point', parr[j])) for j in range(n)]
+    canon = [as_bool_term(canon_point_intersects(it, p, skind, ssym)) for p in psyms]
+    findings, checks = [], []
+
+    def attr(o, name):
+        return it.getattr_(o, name, None, True)
+    o = guarded(lambda: it.call(attr(parr, 'intersects'), [shape]))
+    if o.exc:
+        findings.append(('intersects', 'array', 'raises', o.exc))
+    elif len(o.vals) != n:
+        findings.append(('intersects', 'array', 'mismatch', f'length {len(o.vals)}'))
+    else:
+        checks.append(('intersects[array]', z3.Or(*[as_bool_term(o.vals[j]) != canon[j] for j in range(n)])))
+    for inds in ([n - 1 - j for j in range(n)] + [0], [j for j in range(n) if j % 2 == 1]):
+        o = guarded(lambda inds=inds: it.call(attr(parr, 'intersects'), [shape], {'inds': np.array(inds)}))
+        if o.exc:
+            findings.append(('intersects', f'inds={inds}', 'raises', o.exc))
+        elif len(o.vals) != len(inds):
+            findings.append(('intersects', f'inds={inds}', 'mismatch', f'length {len(o.vals)}'))
+        else:
+            checks.append((f'intersects[inds={inds}]', z3.Or(*[as_bool_term(o.vals[k]) != canon[j] for k, j in enumerate(inds)])))
+    for j in range(n):
+        def scalar(j=j):
+            e = parr[j]
+            if e is None:
+                return False
+            return it.call(attr(e, 'intersects'), [shape])
+        o = guarded(scalar)
+        if o.exc:
+            findings.append(('intersects', f'scalar[{j}]', 'raises', o.exc))
+        else:
+            checks.append((f'intersects[scalar {j}]', as_bool_term(o.vals) != canon[j]))
+    s = z3.Solver()
+    res, solver_s, nq = {}, 0.0, 0
+    for name, disj in checks:
+        s.push()
+        s.add(disj)
+        st, m, dt = z3_check(s, timeout, seed)
+        solver_s += dt
+        nq += 1
+        res[name] = st
+        if m is not None:
+            findings.append((name, 'solver', 'differs', {'model': model_ints(m, ts.zvars)}))
+        s.pop()
+    out = {'status': 'unsat' if not findings and all(v == 'unsat' for v in res.values()) else ('sat' if findings else 'unknown'),
+           'solver_s': round(solver_s, 3), 'queries': nq, 'formula_size': sum(len(str(d)) for _, d in checks[:3]) + 1, 'encoded': it.encoded,
+           'findings': findings, 'verdicts': res, 'symex_s': round(time.time() - t0 - solver_s, 2)}
+    if not findings and any(v != 'unsat' for v in res.values()):
+        out['detail'] = f"undecided: {[k for k, v in res.items() if v != 'unsat']}"
+    return out
+
+
+def replay_point_intersects(skind, sspec, pderiv, sliced_shape, finding):
+    """real PointArray.intersects forms against the value for a fresh one-point array (missing -> False)"""
+    quantity, form, problem, detail = finding
+    model = detail.get('model') if isinstance(detail, dict) else {}
+    if problem == 'differs':
+        form = quantity.split('[', 1)[1][:-1]
+        if form.startswith('scalar '):
+            form = f"scalar[{form.split()[1]}]"
+    ts = T.TagSpace()
+    ppy = [T.build_element(ts, 'point', sp)[0] for sp in BASE['point']]
+    filler = BASE[skind][0]
+    spy = [T.build_element(ts, skind, sp)[0] for sp in ([filler, sspec] if sliced_shape else [sspec])]
+    vals = _concrete_values(model or {}, ts.n)
+
+    def sub(x):
+        if isinstance(x, list):
+            return [sub(e) for e in x]
+        return None if x is None else vals[(int(x) - T.TAG_BASE) // T.TAG_STEP]
+    import spatialpandas.geometry as sg
+    parr = DERIVS[pderiv][0](sg.PointArray([sub(e) for e in ppy], dtype='float64'))
+    sarr = T.array_class(skind)([sub(e) for e in spy], dtype='float64')
+    if sliced_shape:
+        sarr = sarr[1:]
+    shape = sarr[0]
+    n = len(parr)
+
+    def one(j):
+        e = parr[j]
+        if e is None:
+            return False
+        return bool(sg.PointArray([e.flat_values], dtype='float64').intersects(shape)[0])
+    wit = {'kind': 'point', 'shape_kind': skind, 'shape': shape.data.as_py() if skind != 'point' else shape.flat_values.tolist(),
+           'points': [None if parr[j] is None else parr[j].flat_values.tolist() for j in range(n)], 'form': form, 'quantity': 'intersects',
+           'elements': [None if parr[j] is None else parr[j].flat_values.tolist() for j in range(n)]}
+    try:
+        if form.startswith('scalar['):
+            j = int(form.split('[')[1].split(']')[0])
+            got = [False if parr[j] is None else bool(parr[j].intersects(shape))]
+            want = [one(j)]
+        elif form.startswith('inds='):
+            inds = eval(form.split('=', 1)[1])   # noqa: S307
+            got = [bool(x) for x in parr.intersects(shape, inds=np.array(inds))]
+            want = [one(j) for j in inds]
+        else:
+            got = [bool(x) for x in parr.intersects(shape)]
+            want = [one(j) for j in range(n)]
+    except Exception as e:  # noqa: BLE001
+        wit['got'] = f'raises {type(e).__name__}: {str(e)[:160]}'
+        return True, wit
+    wit.update(got=got, expected=want)
+    return got != want, wit
+
+
+def run_point_intersects(check, pool, Task, pid='C02'):
+    cap = 600
+    tasks = []
+    pderivs = ['identity', 'slice[1:]'] + (['take_fill[0,NA,2]', 'concat[2:]+[:2]'] if check.tier == 'thorough' else [])
+    for skind, sspecs in SHAPES.items():
+        for k, sspec in enumerate(sspecs):
+            for pd in pderivs:
+                for sl in ((False, True) if (k == 0 or check.tier == 'thorough') else (False,)):
+                    nm = f"wrappers:PointArray.intersects({skind} {sspec}{' from sliced array' if sl else ''}) points={pd}"
+                    tasks.append(Task(nm, point_intersects_task, (skind, sspec), {'pderiv': pd, 'sliced_shape': sl, 'seed': check.seed}, timeout=cap,
+                                      meta={'skind': skind, 'sspec': sspec, 'pderiv': pd, 'sliced': sl}))
+    res = pool(tasks)
+    for t in tasks:
+        r = res.get(t.name, {'status': 'error', 'detail': 'no result'})
+        m = t.meta
+        fnd = r.get('findings') or []
+        if r['status'] == 'sat' and fnd:
+            outcome = []
+            for f in fnd:
+                try:
+                    bad, wit = replay_point_intersects(m['skind'], m['sspec'], m['pderiv'], m['sliced'], f)
+                except Exception as e:  # noqa: BLE001
+                    check.harness_error(f"replay of {t.name} failed: {type(e).__name__}: {e}\n{traceback.format_exc()[-600:]}")
+                    continue
+                if bad:
+                    key = finding_key(pid, 'point', f, wit=wit)
+                    outcome.append(check.violation(key, f"PointArray ({m['pderiv']}).intersects({m['skind']}) [{wit['form']}] = {wit.get('got')} but each point "
+                                                        f"alone gives {wit.get('expected')}", wit))
+                else:
+                    outcome.append('spurious')
+            st = 'violated' if any(o in ('new', 'dup') for o in outcome) else ('known-finding' if outcome and all(o == 'known' for o in outcome) else 'inconclusive')
+            if st == 'inconclusive':
+                r = dict(r, detail='symbolic finding did not reproduce on the real code')
+            check.record(t.name, dict(r, status=st), 'wrapper', m)
+        else:
+            check.record(t.name, r, 'wrapper', m)
+
+
+# ------------------------------------------------------------------------------------------------ per-property entry points
+DTYPES_ALL = ('float64', 'float32', 'int64', 'int32', 'int16')
+
+
+def run_c01(check, pool, Task):
+    derivs = ['identity', 'slice[1:]', 'concat[2:]+[:2]', 'take_fill[0,NA,2]'] + (['pickle(slice)[1:]', 'reverse[::-1]', 'slice[1:][1:]'] if check.tier == 'thorough' else [])
+    run_arrays(check, pool, Task, 'C01', ('intersects_bounds',), derivs=derivs, dtypes=('float64',), label='wrappers')
+    other = DTYPES_ALL[1:] if check.tier == 'thorough' else ('int16', 'float32')
+    run_arrays(check, pool, Task, 'C01', ('intersects_bounds',), derivs=['slice[1:]'], dtypes=other, label='wrappers')
+    check.assumptions.append('wrapper obligations: wrapper(derived array)[i] == the same kernel on a fresh flat copy of element i (multiplication '
+                             'uninterpreted: equal data gives equal results under every interpretation); scalar, array and inds forms')
+
+
+def run_c02(check, pool, Task):
+    run_point_intersects(check, pool, Task, 'C02')
+    check.assumptions.append('wrapper obligations: PointArray.intersects / Point.intersects forms == the jitted kernel on the point alone; missing point -> False')
+
+
+# ------------------------------------------------------------------------------------------------ C14: boundary
+def boundary_task(kind, deriv, timeout=120, seed=0):
+    """PolygonArray/MultiPolygonArray.boundary: a multiline array with exactly the rings (tags identical), missing
+    stays missing, and boundary.length == length for all coordinates"""
+    t0 = time.time()
+    values.set_mul_mode('uf')
+    ts = T.TagSpace(sort='int')
+    src, _ = T.build_array(ts, kind, BASE[kind])
+    arr = DERIVS[deriv][0](src)
+    it = ts.install(Interp())
+    it.stubs['sqrt'] = Stub(c14.sqrt_stub, 'math.sqrt -> uninterpreted sqrt_uf')
+    findings, checks = [], []
+    n = len(arr)
+
+    def attr(o, name):
+        return it.getattr_(o, name, None, True)
+    o = guarded(lambda: attr(arr, 'boundary'))
+    if o.exc:
+        findings.append(('boundary', 'array', 'raises', o.exc))
+    else:
+        b = o.vals
+        if type(b).__name__ != 'MultiLineArray' or len(b) != n:
+            findings.append(('boundary', 'array', 'mismatch', f'{type(b).__name__} of length {len(b)}'))
+        else:
+            for j in range(n):
+                e, be = arr[j], b[j]
+                want = None if e is None else ([r for part in e.data.as_py() for r in part] if kind == 'multipolygon' else e.data.as_py())
+                got = None if be is None else be.data.as_py()
+                if got != want:
+                    findings.append(('boundary', f'element[{j}]', 'mismatch', f'got {got} expected {want}'))
+            lb = guarded(lambda: attr(b, 'length'))
+            la = guarded(lambda: attr(arr, 'length'))
+            if lb.exc or la.exc:
+                findings.append(('boundary', 'length', 'raises', lb.exc or la.exc))
+            else:
+                checks.append(('boundary.length == length', z3.Or(*[num_differs(lb.vals[j], la.vals[j]) for j in range(n)]) if n else z3.BoolVal(False)))
+    # scalar form
+    for j in range(n):
+        if arr[j] is None:
+            continue
+
+        def sc(j=j):
+            return attr(arr[j], 'boundary')
+        o = guarded(sc)
+        if o.exc:
+            findings.append(('boundary', f'scalar[{j}]', 'raises', o.exc))
+        else:
+            e = arr[j]
+            want = [r for part in e.data.as_py() for r in part] if kind == 'multipolygon' else e.data.as_py()
+            got = o.vals.data.as_py()
+            if got != want:
+                findings.append(('boundary', f'scalar[{j}]', 'mismatch', f'got {got} expected {want}'))
+    s = z3.Solver()
+    res, solver_s, nq = {}, 0.0, 0
+    for name, disj in checks:
+        s.push()
+        s.add(disj)
+        st, m, dt = z3_check(s, timeout, seed)
+        solver_s += dt
+        nq += 1
+        res[name] = st
+        if m is not None:
+            findings.append((name, 'solver', 'differs', {'model': model_ints(m, ts.zvars)}))
+        s.pop()
+    return {'status': 'unsat' if not findings and all(v == 'unsat' for v in res.values()) else ('sat' if findings else 'unknown'),
+            'solver_s': round(solver_s, 3), 'queries': max(nq, 1), 'formula_size': 1 + sum(len(str(d)) for _, d in checks), 'encoded': it.encoded,
+            'findings': findings, 'verdicts': res, 'symex_s': round(time.time() - t0 - solver_s, 2)}
+
+
+def replay_boundary(kind, deriv, finding):
+    quantity, form, problem, detail = finding
+    model = detail.get('model') if isinstance(detail, dict) else {}
+    src = concrete_array(kind, BASE[kind], 'float64', model)
+    arr = DERIVS[deriv][0](src)
+    n = len(arr)
+    wit = {'kind': kind, 'derivation': deriv, 'quantity': 'boundary', 'form': form,
+           'elements': [None if arr[j] is None else arr[j].data.as_py() for j in range(n)]}
+    try:
+        if str(form).startswith('scalar['):
+            j = int(form.split('[')[1].split(']')[0])
+            got = arr[j].boundary.data.as_py()
+            e = arr[j]
+            want = [r for part in e.data.as_py() for r in part] if kind == 'multipolygon' else e.data.as_py()
+            wit.update(got=got, expected=want)
+            return got != want, wit
+        b = arr.boundary
+        got = [None if b[j] is None else b[j].data.as_py() for j in range(n)]
+        want = [None if arr[j] is None else ([r for part in arr[j].data.as_py() for r in part] if kind == 'multipolygon' else arr[j].data.as_py()) for j in range(n)]
+        gl, wl = [float(x) for x in b.length], [float(x) for x in arr.length]
+        wit.update(got={'elements': got, 'length': gl}, expected={'elements': want, 'length': wl})
+        return got != want or any(not _nan_eq(a, c, 1e-12) for a, c in zip(gl, wl)), wit
+    except Exception as e:  # noqa: BLE001
+        wit['got'] = f'raises {type(e).__name__}: {str(e)[:200]}'
+        return True, wit
+
+
+def run_boundary(check, pool, Task, pid='C14'):
+    derivs = ['identity', 'slice[1:]', 'take_fill[0,NA,2]'] + (['concat[2:]+[:2]', 'pickle(slice)[1:]'] if check.tier == 'thorough' else [])
+    tasks = [Task(f'wrappers:{kind}.boundary {d}', boundary_task, (kind, d), {'seed': check.seed}, timeout=600, meta={'kind': kind, 'deriv': d})
+             for kind in ('polygon', 'multipolygon') for d in derivs]
+    res = pool(tasks)
+    for t in tasks:
+        r = res.get(t.name, {'status': 'error', 'detail': 'no result'})
+        m = t.meta
+        fnd = r.get('findings') or []
+        if r['status'] == 'sat' and fnd:
+            outcome = []
+            for f in fnd:
+                try:
+                    bad, wit = replay_boundary(m['kind'], m['deriv'], f)
+                except Exception as e:  # noqa: BLE001
+                    check.harness_error(f"replay of {t.name} failed: {type(e).__name__}: {e}")
+                    continue
+                if bad:
+                    key = finding_key(pid, m['kind'], ('boundary', f[1], f[2], None), wit=wit)
+                    outcome.append(check.violation(key, f"{m['kind']} array ({m['deriv']}).boundary [{f[1]}]: {str(wit.get('got'))[:240]} expected {str(wit.get('expected'))[:240]}", wit))
+                else:
+                    outcome.append('spurious')
+            st = 'violated' if any(o in ('new', 'dup') for o in outcome) else ('known-finding' if outcome and all(o == 'known' for o in outcome) else 'inconclusive')
             check.record(t.name, dict(r, status=st), 'wrapper', m)
         else:
             check.record(t.name, r, 'wrapper', m)
